@@ -231,6 +231,39 @@ theorem flushLocked_adds (s : Stream) (hu : WF s.outunsent) (hfl : s.outflushed 
       · exact h
       · simp [h1] at h
 
+/-! ### the FIN is recorded as sent only when it is on the wire (repaired code) -/
+
+/-- `appendStreamFrame` sets the FIN bit only on an untruncated frame for which FIN was requested. -/
+theorem streamFrameFit_fin (a id off size : Int) (fin : Bool) (n : Int)
+    (h : streamFrameFit a id off size fin = some (n, true)) : n = size ∧ fin = true := by
+  unfold streamFrameFit at h
+  simp only [] at h
+  generalize (if off ≠ 0 then szv off else 0) = o at h
+  by_cases h1 : (a - 1 - szv id - o - szv size < 0 ∨ (a - 1 - szv id - o - szv size = 0 ∧ size > 0))
+  · rw [if_pos h1] at h; exact absurd h (by simp)
+  · rw [if_neg h1] at h
+    by_cases h2 : a - 1 - szv id - o - szv size < size
+    · rw [if_pos h2] at h; simp at h
+    · rw [if_neg h2] at h; simp only [Option.some.injEq, Prod.mk.injEq] at h; exact ⟨h.1.symm, h.2⟩
+
+/-- **No phantom FIN**: an iteration of the STREAM loop moves `outclosed` to "sent in packet pn" only
+when the frame it just wrote carries the FIN bit (the same bit the packet's `sentPacket` record keeps,
+so the fate of that packet reaches `outclosed.ackOrLoss`); a truncated frame — e.g. a PTO probe that did
+not fit — leaves `outclosed` alone, so a FIN lost earlier is still reported lost and sent again. -/
+theorem markFin_spec (s : Stream) (wireFin : Bool) (pn : Int) :
+    (wireFin = false → markFin s wireFin pn = s) ∧
+    (wireFin = true → (markFin s wireFin pn).outclosed = .sent pn) ∧
+    (markFin s wireFin pn).outunsent = s.outunsent ∧ (markFin s wireFin pn).outacked = s.outacked := by
+  unfold markFin; cases wireFin <;> simp
+
+/-- … and the loss of the packet that carried the FIN puts the FIN back to "unsent" exactly when that
+packet is the one recorded. -/
+theorem fin_loss_rescheduled (s : Stream) (pn st en : Int) (h : s.outclosed = .sent pn) :
+    (ackOrLossData s pn st en true false).outclosed = .unsent := by
+  unfold ackOrLossData
+  simp only [h, SV.ackOrLoss]
+  by_cases hr : s.outreset.isSet = true <;> simp [hr]
+
 /-! ### monitor -/
 section Monitor
 open NetVerif.Model.QuicMonitor
